@@ -8,6 +8,7 @@ CONSTANTS
   SpellNames = {}
   EmitTrees = FALSE
   Alpha = "B"
+  Contexts = {}
   MaxLen = 3
   TailLen = 1
   DeepReps = {}
